@@ -91,3 +91,46 @@ func init() {
 		ex.setBool("c16DoqStreamDeadlineReadOnly", nRead == 1 && nOther == 0, true, note)
 	})
 }
+
+// C16: the reading side of a pipelined / datagram upstream connection. A read that fails (a frame announcing less
+// than a DNS header, a short read, an expired deadline) leaves the position in a byte stream unknown, so the loop must
+// not read on: the statement after its single `r, err := dc.readResp()` is `if err != nil { dc.CloseWithErr(...) return }`
+// and the loop has no `continue` / `goto` through which a failed read could be skipped.
+func init() {
+	factFuncs = append(factFuncs, func(ex *factExtractor) {
+		const name = "c16ClientReadErrEndsConn"
+		const note = "TraditionalDnsConn.readLoop: one `r, err := dc.readResp()` per iteration, followed by `if err != nil { dc.CloseWithErr(fmt.Errorf(\"read err, %w\", err)) return }`; no continue / goto in the loop (a failed read is never skipped)"
+		fd := ex.fn("pkg/upstream/transport/conn_traditional.go", "TraditionalDnsConn", "readLoop")
+		if fd == nil {
+			ex.setBool(name, false, false, note)
+			return
+		}
+		reads, jumps, ok := 0, 0, false
+		ast.Inspect(fd.Body, func(n ast.Node) bool {
+			switch x := n.(type) {
+			case *ast.BranchStmt:
+				jumps++
+			case *ast.BlockStmt:
+				for i, s := range x.List {
+					if ex.str(s) == "r, err := dc.readResp()" {
+						reads++
+						if i+1 < len(x.List) {
+							if is, isIf := x.List[i+1].(*ast.IfStmt); isIf && is.Init == nil && is.Else == nil && ex.str(is.Cond) == "err != nil" && len(is.Body.List) == 2 {
+								_, ret := is.Body.List[1].(*ast.ReturnStmt)
+								ok = ret && ex.str(is.Body.List[0]) == "dc.CloseWithErr(fmt.Errorf(\"read err, %w\", err))"
+							}
+						}
+					}
+				}
+			}
+			return true
+		})
+		nCalls := 0
+		for _, c := range ex.calls(fd.Body) {
+			if c == "dc.readResp" {
+				nCalls++
+			}
+		}
+		ex.setBool(name, ok && reads == 1 && nCalls == 1 && jumps == 0, true, note)
+	})
+}
